@@ -42,6 +42,10 @@ type RConfig struct {
 	Tape       []uint16
 	Disabled   map[string]bool // hook points that do not consume a decision
 	SpinPoints map[string]bool // hook points inside spin loops (low priority, livelock accounting)
+	// SpinFollowers are points a goroutine reaches on its way back to a spin
+	// point (the top of a retry loop); a goroutine that arrives there straight
+	// from a spin point still counts as spinning.
+	SpinFollowers map[string]bool
 	MaxSteps   int
 }
 
@@ -166,12 +170,16 @@ func RunHBFree(cfg RConfig, workers []*RWorker) *ROutcome {
 		w.settle()
 	}
 	var last *RWorker
+	cameFromSpin := map[*RWorker]bool{}
+	isSpinning := func(w *RWorker, pt string) bool {
+		return cfg.SpinPoints[pt] || (cameFromSpin[w] && cfg.SpinFollowers[pt])
+	}
 	spinOnly := 0
 	var hash uint64
 	for {
 		// A disabled point does not consume a decision.
 		if last != nil {
-			if st, pt := last.peek(); st == rParked && cfg.Disabled[pt] {
+			if st, pt := last.peek(); st == rParked && cfg.Disabled[pt] && !isSpinning(last, pt) {
 				stats.point(pt)
 				stats.RSteps++
 				last.resume()
@@ -184,7 +192,7 @@ func RunHBFree(cfg RConfig, workers []*RWorker) *ROutcome {
 			st, pt := w.peek()
 			if st == rParked {
 				parked = append(parked, w)
-				if !cfg.SpinPoints[pt] {
+				if !isSpinning(w, pt) {
 					nonSpin = append(nonSpin, w)
 				}
 			}
@@ -212,20 +220,33 @@ func RunHBFree(cfg RConfig, workers []*RWorker) *ROutcome {
 			break
 		}
 		sort.Slice(cand, func(i, j int) bool { return cand[i].Name < cand[j].Name })
-		if last != nil {
-			for i, w := range cand {
-				if w == last {
-					copy(cand[1:i+1], cand[:i])
-					cand[0] = last
-					break
-				}
-			}
-		}
 		var t uint16
 		if out.Decisions < len(cfg.Tape) {
 			t = cfg.Tape[out.Decisions]
 		}
-		w := cand[int(t)%len(cand)]
+		var w *RWorker
+		if len(nonSpin) == 0 {
+			// Only spinners are left: they wait for each other's progress, so be
+			// fair and run them round-robin (a spin loop assumes a fair scheduler).
+			w = cand[0]
+			for i, x := range cand {
+				if x == last {
+					w = cand[(i+1)%len(cand)]
+					break
+				}
+			}
+		} else {
+			if last != nil {
+				for i, x := range cand {
+					if x == last {
+						copy(cand[1:i+1], cand[:i])
+						cand[0] = last
+						break
+					}
+				}
+			}
+			w = cand[int(t)%len(cand)]
+		}
 		_, pt := w.peek()
 		step := w.Name + "@" + pt
 		out.Trace = append(out.Trace, step)
@@ -237,6 +258,7 @@ func RunHBFree(cfg RConfig, workers []*RWorker) *ROutcome {
 			stats.Switches++
 		}
 		last = w
+		cameFromSpin[w] = isSpinning(w, pt)
 		w.resume()
 		w.settle()
 	}
